@@ -164,6 +164,18 @@ def run_lemmas(cfgnames=('sec',)):
     return out
 
 
+def cross_total(results):
+    """sampled re-check of discharged obligations by cvc5 (VERIF_CROSS=N: every N-th)"""
+    tot = {}
+    for d in results:
+        for k, v in (d.get('cross') or {}).items():
+            tot[k] = tot.get(k, 0) + v
+    from symx import core
+    return {'solver': core.CROSS_BIN if core.CROSS_EVERY else None, 'every': core.CROSS_EVERY,
+            'time_limit_ms': core.CROSS_TLIMIT_MS, 'agree': tot.get('agree', 0), 'disagree': tot.get('disagree', 0),
+            'no_answer': tot.get('noanswer', 0) + tot.get('error', 0), 'errors': tot.get('error', 0)}
+
+
 def main_run(pid, tier, specs, meta, lemma_results=None):
     """run, triage, write evidence, return exit code"""
     t0 = time.time()
@@ -232,6 +244,7 @@ def main_run(pid, tier, specs, meta, lemma_results=None):
             'functions_encoded': functions,
             'bounds': meta.get('bounds', []), 'outside': meta.get('outside', []), 'stubs': meta.get('stubs', []),
             'lemmas': lemma_results or {},
+            'second_solver': cross_total(results),
             'inconclusive': [{'unit': n, **i} for n, i in inconcl][:50],
             'non_reproducing': [{'unit': n, 'claims': f['claims']} for n, f, _ in nonrepro][:20],
             'known_findings_seen': sorted(set(k['id'] for k, _, _ in known_seen)),
